@@ -32,7 +32,7 @@ def conditions(func, tier, carve, replace_modes=(True,), merge_modes=(False,), t
                     n = 3 if deep and replace and not merge else 2
                 else:
                     n = 4 if deep and replace and not merge else 3
-                if n >= 4:
+                if n >= 3 and deep:
                     # split by the kind of the first line
                     for first in range(10):
                         conds.append(xh.Cond(f"{func[1:]} {name} multi={multi} replace={replace} merge={merge} body={n} lines, first line kind #{first}", "HDR.py", func, {"style": name, "multi": multi, "replace": replace, "merge": merge, "nlines": n, "first": first, "carve": carve}, timeout=tmo, twin=func + "_reach"))
